@@ -218,4 +218,4 @@ def _obligations():
 
 
 def obligations():
-    return _obligations() + [effects_obligation("C18")]
+    return _obligations() + [labels_obligation("C18"), effects_obligation("C18")]
